@@ -513,7 +513,7 @@ func ruleC18R3(r *Run) {
 	okForce := false
 	for _, b := range p.body(fn) {
 		for _, in := range b.Instrs {
-			if ph, ok := in.(*ssa.Phi); ok && ph.Comment == "u" {
+			if ph, ok := in.(*ssa.Phi); ok {
 				for i, e := range ph.Edges {
 					if p.expr(e) == "$max" && holds(p.facts(ph.Block().Preds[i].Instrs[0]), p.expr(width), ">", "64") {
 						okForce = true
@@ -688,6 +688,7 @@ func ruleC18R2(r *Run) {
 	if v == nil || !r.seedOfCase(v) {
 		return
 	}
+	validPhi, invPhi := findBugCounters(p, v)
 	_, addends := splitSum(p, p.resolve(v.seedVal))
 	if len(addends) == 0 {
 		r.Fail("findBug#seed-step", v.seedSite.Instr.Pos(), "the per-case seed has no increment: every test case of a run uses the same seed")
@@ -697,19 +698,19 @@ func ruleC18R2(r *Run) {
 	okFold := true
 	for _, a := range addends {
 		x, ok1 := p.evalWithPhis(a, func(ph *ssa.Phi) (int64, bool) {
-			switch ph.Comment {
-			case "valid":
+			switch ph {
+			case validPhi:
 				return 1, true
-			case "invalid":
+			case invPhi:
 				return 0, true
 			}
 			return 0, false
 		}, 0)
 		y, ok2 := p.evalWithPhis(a, func(ph *ssa.Phi) (int64, bool) {
-			switch ph.Comment {
-			case "valid":
+			switch ph {
+			case validPhi:
 				return 0, true
-			case "invalid":
+			case invPhi:
 				return 1, true
 			}
 			return 0, false
@@ -754,7 +755,6 @@ func (p *Program) evalWithPhis(v ssa.Value, f func(*ssa.Phi) (int64, bool), dept
 	return 0, false
 }
 
-
 // isLocalFieldLoad: v loads a field of a struct held in a local cell.
 func isLocalFieldLoad(v ssa.Value) bool {
 	u, ok := v.(*ssa.UnOp)
@@ -767,4 +767,20 @@ func isLocalFieldLoad(v ssa.Value) bool {
 	}
 	_, isAlloc := fa.X.(*ssa.Alloc)
 	return isAlloc
+}
+
+// findBugCounters identifies the loop counters of findBug by the results they are returned as: (valid, invalid, …).
+func findBugCounters(p *Program, v *findBugView) (valid, invalid *ssa.Phi) {
+	for _, ret := range returnsOf(v.fn) {
+		if len(ret.Results) < 2 {
+			continue
+		}
+		if ph, ok := p.resolve(p.res(ret, 0)).(*ssa.Phi); ok && ph.Block() == v.loop.Header {
+			valid = ph
+		}
+		if ph, ok := p.resolve(p.res(ret, 1)).(*ssa.Phi); ok && ph.Block() == v.loop.Header {
+			invalid = ph
+		}
+	}
+	return
 }
